@@ -402,10 +402,18 @@ theorem eff_all (w : OWorkflow) (a : Acquired) (hk : a.kept = List.range w.tasks
   simp [effLaunch, hk, hlt]
 
 /-- No role got a task: DEPLOY cannot succeed (there is at least one task role). -/
-theorem eff_none_fails (w : OWorkflow) (a : Acquired) (hk : a.kept = []) (hne : w.tasks ≠ []) :
-    deployBody (w.eff a).tasks w.calls w.notifyLost ≠ .ok := by
+theorem eff_tasks_ne (w : OWorkflow) (a : Acquired) (hne : w.tasks ≠ []) : (w.eff a).tasks ≠ [] := by
+  intro h
+  apply hne
+  have : (indexed w.tasks).length = 0 := by simpa [OWorkflow.eff] using congrArg List.length h
+  rw [indexed_length] at this
+  exact List.length_eq_zero_iff.1 this
+
+theorem eff_none_fails (cfg : Cfg) (w : OWorkflow) (a : Acquired) (hk : a.kept = []) (hne : w.tasks ≠ []) :
+    deployBody cfg (w.eff a).tasks w.calls w.notifyLost ≠ .ok := by
   rw [Ne, deployBody_ok]
-  rintro ⟨_, _, hall⟩
+  rintro (⟨_, h, _⟩ | ⟨_, _, hall⟩)
+  · exact eff_tasks_ne w a hne h
   obtain ⟨t, ts, ht⟩ := List.exists_cons_of_ne_nil hne
   have hmem : ((0 : Nat), t) ∈ indexed w.tasks := by
     rw [mem_indexed, ht]; rfl
